@@ -1,5 +1,6 @@
 pub mod lex;
 pub mod prng;
+pub mod px;
 pub mod report;
 pub mod run;
 #[cfg(feature = "sqlite")]
